@@ -275,24 +275,20 @@ class Arm(Robot):
                 self.screw_list, self._end_effector_home.gTM(),
                 goal_position.gTM(), theta_init,
                 self.pos_tolerance, self.rot_tolerance, max_iters=max_iters)
+        if not success and check:
+            i = 0
+            while i < level and success == 0:
+                theta_temp = np.zeros((len(self._theta)))
+                for j in range(len(theta_temp)):
+                    theta_temp[j] = random.uniform(-np.pi, np.pi)
+                theta, success = fmr.IKinSpace(
+                        self.screw_list, self._end_effector_home.gTM(),
+                        goal_position.gTM(), theta_temp,
+                        self.pos_tolerance, self.rot_tolerance, max_iters=max_iters)
+                i = i + 1
         theta = fsr.angleMod(theta)
-        self._theta = theta
         if success:
-            self._end_effector_pos_global = goal_position
-        else:
-            if check:
-                i = 0
-                while i < level and success == 0:
-                    theta_temp = np.zeros((len(self._theta)))
-                    for j in range(len(theta_temp)):
-                        theta_temp[j] = random.uniform(-np.pi, np.pi)
-                    theta, success = fmr.IKinSpace(
-                            self.screw_list, self._end_effector_home.gTM(),
-                            goal_position.gTM(), theta_init,
-                            self.pos_tolerance, self.rot_tolerance, max_iters=max_iters)
-                    i = i + 1
-                if success:
-                    self._end_effector_pos_global = goal_position
+            self.FK(theta, protect=True)
         return theta, success
 
     def constrainedIK(self, goal_position : tm, theta_init : 'np.ndarray[float]' = None,
